@@ -1,6 +1,6 @@
 SPECIFICATION Spec
 CONSTANTS
-  Drivers = {"TR", "SPG", "AL", "BAL"}
+  Drivers = {"TR", "TRS", "SPG", "AL", "BAL"}
   Ks = {1, 2, 3, 4}
   Ps <- PsDef
   MaxSteps = 3
